@@ -219,6 +219,22 @@ def _wrap_mpr():
 _wrap_mpr()
 
 
+_DUMMY = None
+
+
+def _interleaved_query():
+    global _DUMMY
+    if _DUMMY is None:
+        T = np.eye(4)
+        T[:3, 3] = [0.3, 0.2, 0.1]
+        _DUMMY = (build(dict(kind="box", pose=np.eye(4).tolist(), size=[1.0, 2.0, 3.0])),
+                  build(dict(kind="capsule", pose=T.tolist(), radius=0.5, height=1.0)),
+                  build(dict(kind="sphere", center=[0.0, 0.0, 0.0], radius=1.0)),
+                  build(dict(kind="sphere", center=[1.5, 0.0, 0.0], radius=1.0)))
+    MPR.mpr_penetration(_DUMMY[0], _DUMMY[1])     # general portal arm
+    MPR.mpr_penetration(_DUMMY[2], _DUMMY[3])     # origin-on-segment arm
+
+
 def rows_supported(simplex, r1, r2):
     """per row: bitwise equal to some p_k - q_k of the support points GJK was given"""
     D = [p - q for p, q in zip(r1.pts, r2.pts)]
@@ -261,8 +277,20 @@ def run_op(op, s1, s2):
                 out["skipped"] = "gjk reports no overlap"
         elif name == "mpr_pen":
             inter, depth, pdir, pos = MPR.mpr_penetration(c1, c2, **kw)
+            early = (None if depth is None else float(depth), arr(pdir), arr(pos))
+            saved_arms, saved_last = dict(ARM), dict(_mpr_last)
+            # results are read only after another, unrelated query has been made (a caller that collects
+            # the contacts of all candidate pairs first): a result that aliases internal scratch state changes
+            _interleaved_query()
+            ARM.clear()
+            ARM.update(saved_arms)
+            _mpr_last.clear()
+            _mpr_last.update(saved_last)
             out.update(ans=bool(inter), depth=None if depth is None else float(depth), dir=arr(pdir), pos=arr(pos),
                        portal=_mpr_last.get("portal"), raw_dir=_mpr_last.get("raw_dir"))
+            late = (out["depth"], out["dir"], out["pos"])
+            if json.dumps(early) != json.dumps(late):
+                out["changed_after_next_query"] = dict(early=early, late=late)
         else:
             raise ValueError(name)
     except Timeout:
